@@ -496,7 +496,7 @@ func checkC05(P *Program, r *Result, tier string) {
 	}
 
 	// ---- PUBLISH ----
-	if fn := P.Method(relBufiox, "fakeIOWriter", "Write"); r.require("bufiox.fakeIOWriter.Write", fn != nil) {
+	if fn := P.Method(relBufiox, P.helperTypeOf(relBufiox, "BytesWriter", "fakedIOWriter"), "Write"); r.require("bufiox: Write of the publishing sink embedded in BytesWriter", fn != nil) {
 		pub := false
 		for _, b := range fn.Blocks {
 			for _, in := range b.Instrs {
@@ -635,7 +635,7 @@ func fieldInits(fn *ssa.Function, field string, depth int) []ssa.Value {
 			switch x := in.(type) {
 			case *ssa.Store:
 				if fa, ok := x.Addr.(*ssa.FieldAddr); ok {
-					if st, ok := deref(fa.X.Type()).Underlying().(*types.Struct); ok && st.Field(fa.Field).Name() == field {
+					if st, ok := deref(fa.X.Type()).Underlying().(*types.Struct); ok && st != nil && canonFieldName(fa.X.Type(), fa.Field) == field {
 						out = append(out, x.Val)
 					}
 				}
